@@ -265,7 +265,9 @@ func c05Reference(specs []c05HandlerSpec, subject string) (marker, code string, 
 }
 
 var c05PatternPool = []string{"a", "a.set", "a.$id", "a.>", "a.$id.set", "a.$id.$sub", "b", "b.*", "a.new", "a.$id.new", "$any", "", ">", ""}
-var c05RNames = []string{"test.a", "test.a.set", "test.a.x", "test.a.x.set", "test.a.x.y", "test.a.x.y.z", "test.b", "test.b.set", "test", "test.a.new", "test.a.x.new", "test.q", "test.a.*"}
+var c05RNames = []string{"test.a", "test.a.set", "test.a.x", "test.a.x.set", "test.a.x.y", "test.a.x.y.z", "test.b", "test.b.set", "test", "test.a.new", "test.a.x.new", "test.q", "test.a.*",
+	// reach the service only when it owns more than its own name (every third configuration owns ">")
+	"test_a", "testxa.set", "testsa.x", "tes.a", "testa", "other.a", "test_a.x"}
 var c05Methods = []string{"set", "new", "foo", "login", "x"}
 
 func c05RandSpecs(r *rand.Rand) []c05HandlerSpec {
@@ -463,7 +465,12 @@ func c05Run(c *core.Ctx, b core.Batch) {
 	for cfgi := 0; cfgi < p.N; cfgi++ {
 		specs := c05RandSpecs(r)
 		st := &c05State{outcome: "marker"}
-		rg := newRig("test", func(s *res.Service) { c05Register(s, specs, st) })
+		rg := newRig("test", func(s *res.Service) {
+			c05Register(s, specs, st)
+			if cfgi%3 == 2 {
+				s.SetOwnedResources([]string{">"}, []string{">"})
+			}
+		})
 		rg.C.NoGoID = true
 		if err := rg.start(); err != nil {
 			c.Inconclusive("service failed to start: " + err.Error())
@@ -609,7 +616,12 @@ func c05Run(c *core.Ctx, b core.Batch) {
 					}
 				}
 				for _, bad := range bads {
-					if ok = one([]string{"get.", "access.", "call.", "auth."}[r.Intn(4)]+rn+[]string{"", ".set"}[r.Intn(2)], []byte(bad), nil, true); !ok {
+					// well-formed subjects only: call and auth always carry a method token
+					subj := []string{"get.", "access."}[r.Intn(2)] + rn + []string{"", ".set"}[r.Intn(2)]
+					if r.Intn(2) == 0 {
+						subj = []string{"call.", "auth."}[r.Intn(2)] + rn + ".set"
+					}
+					if ok = one(subj, []byte(bad), nil, true); !ok {
 						break outer
 					}
 				}
